@@ -238,6 +238,29 @@ def structural(tier, res):
     ok_keys = bool(keys) and all(isinstance(k, ast.Name) for k in keys) and bool(binds) and all(b_.startswith('make_section_id(') for b_ in binds)
     out.append(frames.Clause(fi.qualname + '#views_are_keyed_by_allocated_ids', ok_keys, 'sections[<id>] with <id> = make_section_id(...)' if ok_keys else
                              'a view is stored under a key that does not come from make_section_id: %s' % binds, kind='auxiliary'))
+    # the per-category breakdown by kind (typeTotals) buckets each transaction with the same precedence as the analysis: income, then investment, then transfer
+    def tag_test_order(fn_node, names):
+        """order in which an if / elif chain of fn_node tests membership of the special tags"""
+        best = []
+        for st in ast.walk(fn_node):
+            if not isinstance(st, ast.If):
+                continue
+            chain, cur = [], st
+            while isinstance(cur, ast.If):
+                t = ast.unparse(cur.test)
+                hit = [k for k, pats in names.items() if any(p_ in t for p_ in pats)]
+                if len(hit) == 1 and ' in ' in t:
+                    chain.append(hit[0])
+                cur = cur.orelse[0] if len(cur.orelse) == 1 and isinstance(cur.orelse[0], ast.If) else None
+            if len(chain) > len(best):
+                best = chain
+        return best
+    want_order = ['income', 'investment', 'transfer']
+    o_report = tag_test_order(fi.node, {'income': ["'income'"], 'investment': ["'investment'"], 'transfer': ["'transfer'"]})
+    o_cls = tag_test_order(find_function('tally.classification.categorize_amount').node, {'income': ['INCOME_TAG'], 'investment': ['INVESTMENT_TAG'], 'transfer': ['TRANSFER_TAG']})
+    ok_prec = o_report == want_order and o_cls == want_order
+    out.append(frames.Clause(fi.qualname + '#type_totals_use_the_precedence_of_the_analysis', ok_prec,
+                             'income, investment, transfer in both places' if ok_prec else 'typeTotals: %s, categorize_amount: %s' % (o_report, o_cls), kind='auxiliary'))
     order = [m for m in ('CSS_PLACEHOLDER', 'JS_PLACEHOLDER', 'DATA_PLACEHOLDER') if True]
     emb = src[src.rfind('else:'):] if 'else:' in src else src
     pos = [emb.find("'/* %s */'" % m) for m in order]
